@@ -52,4 +52,16 @@ func TestVerifC20b(t *testing.T) {
 		res := r.BFS(name, func() vx.Sys { return dbxWithSoft(r, c, name) }, p.depth)
 		t.Logf("C20b %s depth %d: states=%d transitions=%d depthCompleted=%d", name, p.depth, res.States, res.Transitions, res.DepthCompleted)
 	}
+	// search from non-initial states (deep scripted pre-states with deletes on block boundaries)
+	for _, cn := range vx.Pick(r, []string{"base"}, []string{"base", "ooo", "oooneg", "snap"}) {
+		if r.Expired() {
+			r.NotExhaustive("deadline before the non-initial-state search of " + cn)
+			break
+		}
+		c := cfgs[cn]
+		c.Alphabet = "del"
+		name := cn + "@del+starts"
+		res := r.BFSFrom(name, func() vx.Sys { return dbxWithSoft(r, c, name) }, dbxStarts(c.W), vx.Pick(r, 1, 2))
+		t.Logf("C20b %s: states=%d transitions=%d", name, res.States, res.Transitions)
+	}
 }
